@@ -28,10 +28,13 @@ TRUSTED_BASE = [
     "extraction: Require Extraction, ExtrOcamlBasic, ExtrOcamlString only (no Extract Constant/Inductive of our own); "
     "OCaml 4.13.1 ocamlfind ocamlopt with zarith+unix; harness/driver.ml (s-expression reader, printer, checked "
     "division and per-observation time budget)",
-    "translator harness/py2coq.py (fail-closed Python-ast to Gallina for the whitelisted kernels) and the hand-written "
-    "semantics of the JAX primitives it targets",
+    "translators, run on every check: harness/py2coq.py (fail-closed Python-ast to Gallina for the whitelisted kernels: "
+    "true translation of solver steps, Dormand-Prince tables, binary search, interpolators; source-pattern-checked "
+    "templates for force of infection, midpoint / cumulative outputs) and harness/py2trace.py (Python-ast to the traced "
+    "expression language of Model/Trace.v, C19), with the hand-written semantics of the JAX primitives they target "
+    "(Base/Arr.v, Base/ZArr.v, Model/Trace.v)",
     "correspondence harness: program generator, harness/jaxshim (NumPy-backed stand-in for jax, needed because real "
-    "jaxlib segfaults in this sandbox), canonicaliser and tolerance rule, independent oracles in harness/oracles.py",
+    "jaxlib segfaults in this sandbox; its value-tainting mode SUMMER2_VERIF_TAINT=1 emulates tracing for C19), canonicaliser and tolerance rule, independent oracles in harness/oracles.py",
     "the theorems are about the Gallina model in coq/Model; only the translator and the sampled correspondence "
     "connect it to /repo; IEEE rounding, XLA compilation, the reverse-mode adjoint, pandas/plotting are not modelled",
 ]
@@ -59,11 +62,21 @@ def strip_comments(src):
 
 
 def gate():
-    """forbidden tokens anywhere in the development (outside comments and strings)"""
+    """forbidden tokens anywhere in the development (outside comments and strings); Variable / Hypothesis / Context
+    only inside a Section"""
     bad = []
     for f in sorted(glob.glob(os.path.join(COQ, "**", "*.v"), recursive=True)):
         src = strip_comments(open(f).read())
         src = re.sub(r'"[^"]*"', '""', src)
+        depth = 0
+        for mt in re.finditer(r"^\s*(Section|End|Variable|Variables|Hypothesis|Hypotheses|Context)\b", src, flags=re.M):
+            w = mt.group(1)
+            if w == "Section":
+                depth += 1
+            elif w == "End":
+                depth = max(0, depth - 1)
+            elif depth == 0:
+                bad.append("%s: %s outside a section" % (os.path.relpath(f, VERIF), w))
         for mt in FORBIDDEN.finditer(src):
             # Section-local Variable/Hypothesis are fine; 'Parameter' etc. never are
             bad.append("%s: %s" % (os.path.relpath(f, VERIF), mt.group(0)))
